@@ -1,3 +1,98 @@
 //go:build verif
 
 package pfcp
+
+// Read-only accessors for the simulator's oracles (added through the build overlay,
+// never part of the shipped tree). They are called by the simulator's root goroutine
+// only while every go-upf goroutine is durably blocked (after synctest.Wait).
+
+import "sort"
+
+type VerifSess struct {
+	LocalID  uint64
+	RemoteID uint64
+	NodeID   string
+	NodeAddr string
+	QLens    map[uint16]int
+	URRSeq   map[uint32]uint32
+	PDRs     []uint16
+	FARs     []uint32
+	QERs     []uint32
+	URRs     []uint32
+	BARs     []uint8
+}
+
+type VerifState struct {
+	Sess    []VerifSess
+	Nodes   map[string][]uint64 // node id -> local SEIDs
+	Slots   int                 // length of the session table
+	Free    []uint64
+	TxLen   int
+	RxLen   int
+	TxSeq   uint32
+	RcvQ    int
+	ReportQ int
+	TimerQ  int
+}
+
+func (s *PfcpServer) VerifSetTxSeq(v uint32) { s.txSeq = v }
+
+func (s *PfcpServer) VerifState() VerifState {
+	st := VerifState{
+		Nodes:   map[string][]uint64{},
+		Slots:   len(s.lnode.sess),
+		Free:    append([]uint64(nil), s.lnode.free...),
+		TxLen:   len(s.txTrans),
+		RxLen:   len(s.rxTrans),
+		TxSeq:   s.txSeq,
+		RcvQ:    len(s.rcvCh),
+		ReportQ: len(s.srCh),
+		TimerQ:  len(s.trToCh),
+	}
+	for _, x := range s.lnode.sess {
+		if x == nil {
+			continue
+		}
+		v := VerifSess{LocalID: x.LocalID, RemoteID: x.RemoteID, QLens: map[uint16]int{}, URRSeq: map[uint32]uint32{}}
+		if x.rnode != nil {
+			v.NodeID = x.rnode.ID
+			if x.rnode.addr != nil {
+				v.NodeAddr = x.rnode.addr.String()
+			}
+		}
+		for id, q := range x.q {
+			v.QLens[id] = len(q)
+		}
+		for id, u := range x.URRIDs {
+			v.URRSeq[id] = u.SEQN
+			v.URRs = append(v.URRs, id)
+		}
+		for id := range x.PDRIDs {
+			v.PDRs = append(v.PDRs, id)
+		}
+		for id := range x.FARIDs {
+			v.FARs = append(v.FARs, id)
+		}
+		for id := range x.QERIDs {
+			v.QERs = append(v.QERs, id)
+		}
+		for id := range x.BARIDs {
+			v.BARs = append(v.BARs, id)
+		}
+		sort.Slice(v.PDRs, func(i, j int) bool { return v.PDRs[i] < v.PDRs[j] })
+		sort.Slice(v.FARs, func(i, j int) bool { return v.FARs[i] < v.FARs[j] })
+		sort.Slice(v.QERs, func(i, j int) bool { return v.QERs[i] < v.QERs[j] })
+		sort.Slice(v.URRs, func(i, j int) bool { return v.URRs[i] < v.URRs[j] })
+		sort.Slice(v.BARs, func(i, j int) bool { return v.BARs[i] < v.BARs[j] })
+		st.Sess = append(st.Sess, v)
+	}
+	for id, n := range s.rnodes {
+		var l []uint64
+		for seid := range n.sess {
+			l = append(l, seid)
+		}
+		sort.Slice(l, func(i, j int) bool { return l[i] < l[j] })
+		st.Nodes[id] = l
+	}
+	return st
+}
